@@ -123,7 +123,7 @@ func init() {
 		"C15": {"panic_with_long_stack_trace", "zero_length_first_write", "abort_handler_panic", "unhashable_panic_value", "panic_storm", "body_via_io_copy", "flush_before_writing", "panic_before_writing", "panic_after_status", "panic_after_partial_body", "client.write_error", "pool.stale_pick"}}
 	propWorld["C05"] = "httpworld"
 	propWorld["C15"] = "httpworld"
-	worlds["logworld"].probes = map[string][]string{"*": {"clock_moves_between_records", "line_over_pool_limit", "message_over_pool_limit", "message_over_a_mebibyte", "message_needing_quotes", "line_near_pool_limit", "long_key_path", "group_name_reused", "empty_derivation", "siblings_of_derived_parent", "inline_group", "empty_group", "group_storm", "malformed_args", "below_threshold", "slow_write", "folded_compared", "pool.miss_with_items", "pool.stale_pick", "sink.short_write", "sink.write_error"}}
+	worlds["logworld"].probes = map[string][]string{"*": {"clock_moves_between_records", "line_over_pool_limit", "message_over_pool_limit", "message_over_a_mebibyte", "message_needing_quotes", "line_near_pool_limit", "long_key_path", "group_name_reused", "empty_derivation", "siblings_of_derived_parent", "inline_group", "empty_group", "odd_key", "group_storm", "malformed_args", "below_threshold", "slow_write", "folded_compared", "pool.miss_with_items", "pool.stale_pick", "sink.short_write", "sink.write_error"}}
 	propWorld["C02"] = "logworld"
 	propWorld["C03"] = "logworld"
 	worlds["filterworld"].probes = map[string][]string{
